@@ -18,7 +18,12 @@ def timed_case(draw, max_sources=3):
                     "period": draw(st.one_of(st.sampled_from(PERIODS),
                                              st.floats(min_value=1e-4, max_value=5.0, allow_nan=False))),
                     "times": draw(st.sampled_from([0, 1, 1, 2, 3, 4, 6])),
+                    "zero": draw(st.integers(0, 9)) == 0,
                     "deferred": draw(st.sampled_from([True, True, False, None]))})
+  for src in sources:
+    # a zero period is a period too: n immediate postings (never generated as an endless source)
+    if src.pop("zero") and src["times"] >= 1:
+      src["period"] = draw(st.sampled_from([0, 0.0]))
   return {"sources": sources, "parked": draw(st.booleans()),
           "plain": draw(st.lists(st.sampled_from(["fifo", "lifo"]), max_size=2)),
           "schedule": [list(x) for x in draw(schedule_st)]}
@@ -70,7 +75,7 @@ class TimedWorld:
     s = detsched.Scheduler(schedule=self.case["schedule"], step_limit=step_limit,
                            trace_files=[self.files["activeobject"]], timed=self.case.get("timed_schedule"))
     self.sched = s
-    s.run(body)
+    detsched.guarded_run(s, body)
     return s
 
 
@@ -80,8 +85,8 @@ class C10(Prop):
   thorough_examples = 4000
   rule = ("Generated timed sources under the deterministic scheduler with a virtual clock (time "
           "advances only when every thread is blocked): 1-3 concurrent post_fifo/post_lifo calls "
-          "with period p (from a set with equal, tiny (1e-6) and long periods, or any float in "
-          "[1e-4, 5]), times n in {0,1,2,3,4,6} and deferred True/False/default, optionally while "
+          "with period p (from a set with equal, tiny (1e-6) and long periods, any float in "
+          "[1e-4, 5], or 0 for sources with a repeat count), times n in {0,1,2,3,4,6} and deferred True/False/default, optionally while "
           "the object's thread is parked behind a gate with plain events pending, under generated "
           "schedules. Each posting is stamped with virtual time by an overriding post method. "
           "Oracle: per source the posting instants equal exactly t0+p, t0+2p, ... (deferred) or "
